@@ -424,9 +424,35 @@ func TestVerifC03RealmConn(t *testing.T) {
 			}
 		}
 		steps := 80 + rng.Intn(80)
+		// aggregate: every packet valid, the NUMBER is what grows: (i%8==3) more valid punch and STUN
+		// packets than the event channels hold, nobody reading them; (i%8==5) hundreds of registered attempts
+		overflow := i%8 == 3
+		if i%8 == 5 {
+			for a := 0; a < 150; a++ {
+				_ = pc.AddPunchAttempt(fmt.Sprintf("bulk-%d", a), vfC03Meta(100000+1000*i+a))
+			}
+		}
 		panicked := false
 		for s := 0; s < steps && !panicked; s++ {
 			var pkt []byte
+			if overflow && s < 3*defaultPunchEventBuffer {
+				if s%2 == 0 {
+					pkt = vfC03PunchPacket(rng, PunchPacketHello, metas["a1"], rng.Intn(MaxPunchPadding+1))
+				} else {
+					var tx [stun.TransactionIDSize]byte
+					tx[0], tx[1] = byte(i), byte(s)
+					pkt = vfC03STUNResponse(tx, netip.AddrPortFrom(netip.AddrFrom4([4]byte{192, 0, 2, byte(s)}), uint16(5000+s)), s%4 == 1)
+				}
+				panicked = r.DoObj(entry, r.SeqID(id), pkt, func(b []byte) {
+					if _, _, err := feed(b, vfC03UDPAddr(rng, s), 1500); err == nil {
+						k.Count("ev_returned_to_reader", 1)
+					} else {
+						k.Count("ev_absorbed", 1)
+					}
+				})
+				k.Count("ev_aggregate_valid_unread", 1)
+				continue
+			}
 			switch rng.Intn(10) {
 			case 0, 1: // punch packet of a registered attempt, damaged
 				pkt = vfC03PunchPacket(rng, PunchPacketHello, metas["a1"], rng.Intn(MaxPunchPadding+1))
